@@ -550,20 +550,39 @@ def _assist_model(repo, order='fwd'):
         rec('prefix', 'prefix of %r' % left, not exc and pair(r) and r[0] == want,
             'with %r left of the cursor the prefix must be %r, got %s' % (left, want, exc or (r[0] if pair(r) else r)),
             'prefix(%r) = %r' % (left, want))
-    for left, want_pkg in (('from pkg.su', 'pkg'), ('from pkg su', None), ('from .rel', '.'), ('from ', ''), ('from ..rel.x', None),
-                           ('    from pkg.sub.m', 'pkg.sub')):
+    def level_rest(p):
+        """how Project.norm_package reads a package argument: number of leading dots, dotted rest"""
+        return len(p) - len(p.lstrip('.')), p.strip('.')
+    for left, want_pkg in (('from pkg.su', (0, 'pkg')), ('from pkg su', None), ('from .rel', (1, '')), ('from ', (0, '')),
+                           ('from ..rel.x', (2, 'rel')), ('    from pkg.sub.m', (0, 'pkg.sub')), ('from .', (1, '')), ('from ..', (2, '')),
+                           ('from ...al', (3, '')), ('from ....', (4, '')), ('from ...pk.mo', (3, 'pk')), ('from .a.b.c', (1, 'a.b'))):
         st.reset()
-        st.packages = {'pkg': ['zz', 'aa'], '.': ['r1'], '': ['top1'], '..rel': ['x1'], 'pkg.sub': ['m1', 'm0']}
+        st.packages = {}
         r, exc = st.assist(left, (1, len(left)))
         want = ident_run(left)
         rec('prefix', 'prefix of import line %r' % left, not exc and pair(r) and r[0] == want,
             'on the import line %r the prefix must be %r, got %s' % (left, want, exc or (r[0] if pair(r) else r)),
             'prefix(%r) = %r' % (left, want))
         if want_pkg is not None and not exc and pair(r):
-            asked = [c[1] for c in st.calls if c[0] == 'list_packages']
-            rec('pkg', 'packages proposed on %r' % left, asked == [want_pkg] and r[1] == sorted(st.packages[want_pkg]),
-                'on the import line %r the sub-packages of %r must be proposed (sorted); asked %s, got %s'
-                % (left, want_pkg, asked, r[1]), '%r -> packages of %r' % (left, want_pkg))
+            asked = [c[1] for c in st.calls if c[0] == 'norm_package']
+            rec('pkg', 'package whose children are proposed on %r' % left, [level_rest(a) for a in asked] == [want_pkg],
+                'on the import line %r the children of the package at relative level %d, path %r must be proposed; norm_package was '
+                'asked for %s' % (left, want_pkg[0], want_pkg[1], asked), '%r -> level %d, package %r' % (left, want_pkg[0], want_pkg[1]))
+    # `import` directly followed by a parenthesis is valid Python: the prefix is still the identifier run
+    for left in ('from os.path import(jo', 'from os.path import (jo', 'from os.path import a, jo', 'from os import path as pa'):
+        st.reset()
+        st.marked_import = ('os.path', 'jo')
+        st.packages = {'os.path': []}
+        r, exc = st.assist(left, (1, len(left)))
+        want = ident_run(left)
+        rec('prefix', 'prefix of import line %r' % left, not exc and pair(r) and r[0] == want,
+            'on the import line %r the prefix must be %r, got %s' % (left, want, exc or (r[0] if pair(r) else r)),
+            'prefix(%r) = %r' % (left, want))
+    st.reset()
+    st.packages = {'pkg': ['zz', 'aa', 'zz2']}
+    r, exc = st.assist('from pkg.z', (1, 10))
+    rec('pkg', 'packages proposed on an import line are sorted', not exc and pair(r) and r[1] == ['aa', 'zz', 'zz2'],
+        '`from pkg.z|` must propose the sorted children of pkg; got %s' % (exc or (r,)))
 
     # --- name branch: proposals are the keys of names_at(cursor) of the marked read's region ---------------------------
     asked = []
@@ -924,12 +943,38 @@ def _evaluate_model(repo, order='fwd'):
         rec('dispatch', 'evaluate(%s)' % c.name, r is want, 'a %s handed to EvalCtx.evaluate must give %s; got %s (the dispatch chain '
             'is order sensitive)' % (c.name, how, exc or r), 'evaluate(%s) -> %s' % (c.name, how))
     rec('dispatch-count', 'dispatch candidates', nd >= 14, 'only %d supp classes were dispatched' % nd)
+    # an import cycle between two modules (a imports the name from b, b from a) must end in "nothing", not in a loop
+    ia = st.obj('ImportedName', 'from b import thing (in a)')
+    ib = st.obj('ImportedName', 'from a import thing (in b)')
+    ia.attrs['resolve'] = Native('resolve', lambda it_, a, k: ib)
+    ib.attrs['resolve'] = Native('resolve', lambda it_, a, k: ia)
+    try:
+        r, exc = st.run(st.ctx(), 'evaluate', ia)
+    except Uninterpretable as e:
+        if 'unbounded' not in str(e) and 'budget' not in str(e) and 'depth' not in str(e):
+            raise
+        r, exc = 'NO TERMINATION', str(e)
+    rec('guard', 'evaluate terminates on an import cycle', exc is None and r is None,
+        'evaluating a name that two modules import from each other must return nothing; got %s %s' % (r, exc or ''),
+        'import cycle -> evaluate returns None (re-entrancy guard on every hop)')
     # re-entrancy guard
     loop = st.obj('AssignedName', 'x = x')
     loop.attrs['value_node'] = loop
     r, exc = st.run(st.ctx(), 'evaluate', loop)
     rec('guard', 'evaluate terminates on a self-referential binding', not exc and r is None,
         'evaluate of a binding whose value is itself must return nothing; got %s' % (exc or r,))
+    # an exception escaping a nested evaluation (e.g. a module that does not parse) must not poison other contexts
+    def failing(it_, a, k):
+        raise InterpRaise('SyntaxError', 'the imported module does not parse')
+    inner = st.obj('AssignedName', 'binding in a cached module', value_node=S)
+    hits = []
+    gate = st.obj('ImportedName', 'import evaluated while a module fails', resolve=Native('resolve', lambda it_, a, k: (hits.append(1), failing(it_, a, k))[1] if len(hits) == 0 else inner))
+    outer = st.obj('AssignedName', 'cached binding', value_node=gate)
+    r1, exc1 = st.run(st.ctx(), 'evaluate', outer)
+    r2, exc2 = st.run(st.ctx(), 'evaluate', outer)
+    rec('guard', 'a failed evaluation does not leave its nodes in progress for later requests', exc1 is not None and r2 is S,
+        'after an evaluation that raised (first request: %s) a new EvalCtx must evaluate the same cached binding normally; the second '
+        'request returned %s %s' % (exc1, r2, exc2 or ''), 'in-progress set is per EvalCtx')
     ctx = st.ctx()
     st.run(ctx, 'evaluate', st.obj('AssignedName', 'x', value_node=S))
     rec('guard', 'the in-progress set is empty after evaluate returns', ctx.attrs.get('nodes') in (set(), None) or not ctx.attrs.get('nodes'),
@@ -1089,6 +1134,11 @@ class RemoteStubs(Stubs):
                 return x.exc
             if isinstance(x, (Obj, Unknown, FuncVal)):
                 return 'UnsupportedTypeException'
+            if isinstance(x, str):
+                try:
+                    x.encode('utf-8')
+                except UnicodeEncodeError:
+                    return 'UnicodeEncodeError'       # a lone surrogate (os.fsdecode of an undecodable file name)
             if isinstance(x, (list, tuple, set)):
                 return next((b for b in map(bad, x) if b), None)
             if isinstance(x, dict):
@@ -1230,6 +1280,15 @@ def _server_model(repo):
         rec('fallback', 'a result whose serialisation raises %s still gets exactly one (error) reply' % exc, okf,
             'a result the serialiser fails on with %s must be answered by exactly one ((name, message), False) reply of plain '
             'strings, and the next request served; sent %s (%s)' % (exc, r, how), 'dumps raises %s -> constant ((name, message), False)' % exc)
+    # an error reply whose message cannot be serialised (a lone surrogate from an undecodable file name)
+    def _surrogate(it_, a, k):
+        raise InterpRaise('ValueError', 'cannot open caf\udce9.py')
+    srv, cs, how = serve([Packed(('boom', (), {})), Packed(('ping', (), {})), CLOSE], dict(H, boom=Native('boom', _surrogate)))
+    r = replies(cs)
+    rec('fallback', 'an error reply that cannot be serialised still gets exactly one (error) reply', how == 'returned' and len(r) == 2
+        and r[0][1] is False and r[1][1] is True,
+        'a handler failing with a message the serialiser refuses (lone surrogate) must still be answered by one error reply and the '
+        'loop must go on; sent %s (%s)' % (r, how), 'error reply with an unserialisable message -> constant error reply')
     # send failure
     srv, cs, how = serve([Packed(('ping', (), {})), Packed(('ping', (7,), {})), CLOSE], H, send_fails_on=(1,))
     r = replies(cs)
@@ -1439,4 +1498,207 @@ def _client_model(repo):
     r, exc = invoke(env, 'close', [])
     rec('close', 'close twice is harmless', exc is None and cs['closed'] == 1, 'a second close() must do nothing; %s, closed %d'
         % (exc or 'ok', cs['closed']))
+
+    # ---- launching: prepare() / run() / _threaded_run() with a modelled starter thread and launcher ------------------------
+    def launcher(outcomes, eager=False):
+        """An Environment whose _run is a stub (each call takes the next outcome: True = connects, False = raises) and whose
+        starter thread runs its target when it is joined (in flight until then) or, with eager, when it is started."""
+        env = it.call(env_cls, [], {})
+        state = {'launches': 0, 'threads': [], 'outcomes': list(outcomes), 'conns': []}
+
+        def _run(it_, a, k):
+            state['launches'] += 1
+            ok = state['outcomes'].pop(0) if state['outcomes'] else True
+            if not ok:
+                raise InterpRaise('OSError', 'launch failed')
+            conn, cs = st.conn([Packed(('answer %d' % state['launches'], True))] * 3)
+            state['conns'].append(cs)
+            env.attrs['conn'] = conn
+        env.attrs['_run'] = Native('_run', _run)
+
+        def Thread(it_, a, k):
+            target = k.get('target') or (a[0] if a else None)
+            th = {'ran': False}
+
+            def run_target():
+                if not th['ran']:
+                    th['ran'] = True
+                    try:
+                        it.call(target, [], {})
+                    except InterpRaise:
+                        pass          # an exception ends the thread, nobody sees it
+            o = st.obj(None, 'starter thread', start=Native('start', lambda i2, a2, k2: run_target() if eager else None),
+                       join=Native('join', lambda i2, a2, k2: run_target()),
+                       is_alive=Native('is_alive', lambda i2, a2, k2: not th['ran']))
+            state['threads'].append(o)
+            return o
+        renv['Thread'] = Native('Thread', Thread)
+        return env, state
+
+    env, stt = launcher([True])
+    r, exc = invoke(env, '_call', ['ping'])
+    rec('launch', 'a first call without prepare launches one server and is answered', exc is None and stt['launches'] == 1 and r == 'answer 1',
+        'a first call must launch exactly one server synchronously and be answered; launches %d, result %r %s' % (stt['launches'], r, exc or ''),
+        'first call -> one launch')
+    for eager in (False, True):
+        env, stt = launcher([True], eager)
+        invoke(env, 'prepare', [])
+        r, exc = invoke(env, '_call', ['ping'])
+        rec('launch', 'a first call after prepare() uses the starter\'s server (%s)' % ('starter finished' if eager else 'starter in flight'),
+            exc is None and stt['launches'] == 1 and len(stt['threads']) == 1 and r == 'answer 1',
+            'prepare() followed by a first call must launch exactly one server (the call joins the starter); launches %d, starter '
+            'threads %d, result %r %s' % (stt['launches'], len(stt['threads']), r, exc or ''), 'prepare + first call -> one launch')
+        env, stt = launcher([False, True], eager)
+        invoke(env, 'prepare', [])
+        r, exc = invoke(env, '_call', ['ping'])
+        rec('launch', 'a failed background launch is made up for by the first call (%s)' % ('starter finished' if eager else 'starter in flight'),
+            exc is None and r == 'answer 2' and stt['launches'] == 2,
+            'when the background launch fails, the first call must launch synchronously and be answered - no caller may see an '
+            'exception caused by the start-up handshake; launches %d, result %r %s' % (stt['launches'], r, exc or ''),
+            'starter failed -> the call launches itself')
+    env, stt = launcher([True])
+    invoke(env, 'prepare', [])
+    invoke(env, 'prepare', [])
+    rec('launch', 'prepare() twice starts one starter', len(stt['threads']) == 1, 'two prepare() calls must create one starter thread; '
+        'created %d' % len(stt['threads']))
+    env, stt = launcher([True], True)
+    invoke(env, 'prepare', [])
+    invoke(env, 'prepare', [])
+    invoke(env, '_call', ['ping'])
+    invoke(env, 'prepare', [])
+    rec('launch', 'prepare() with a live connection does nothing', len(stt['threads']) == 1 and stt['launches'] == 1,
+        'once connected, prepare() must not start another server; starter threads %d, launches %d' % (len(stt['threads']), stt['launches']))
+    env, stt = launcher([True, True])
+    invoke(env, '_call', ['ping'])
+    invoke(env, 'close', [])
+    r, exc = invoke(env, '_call', ['ping'])
+    rec('launch', 'after close() the next call launches a new server', exc is None and stt['launches'] == 2 and r == 'answer 2',
+        'after close() the client must be usable again with a new server; launches %d, result %r %s' % (stt['launches'], r, exc or ''))
     return out
+
+
+# ---------------------------------------------------------------------------
+# the memo decorators of util.py
+# ---------------------------------------------------------------------------
+
+def memo_decorator_model(repo):
+    """util.cached_property.__get__ and util.context_property interpreted on stub objects: the memo must end up holding
+    exactly what the outermost call of the decorated function returned (the resolution functions re-enter themselves through
+    loop back edges and store a provisional value on the way), and the function must run once per object."""
+    def build():
+        st = Stubs(repo)
+        it = st.it
+        out = []
+
+        def rec(tag, key, ok, msg, sample=None):
+            out.append((tag, key, bool(ok), msg, sample))
+        cp = it.lookup_global(UTIL, 'cached_property')
+        obj = st.obj(None, 'object with a cached property')
+        calls = []
+
+        def compute(it_, a, k):
+            calls.append(a[0])
+            # a nested access (re-entry through a loop back edge) computed and stored a provisional value meanwhile
+            a[0].attrs['names'] = 'provisional value stored by a re-entrant access'
+            return 'complete value'
+        try:
+            desc = it.call(cp, [Native('names', compute)], {})
+            r = it.call(it.getattr(desc, '__get__'), [obj, None], {})
+            rec('memo', 'cached_property keeps the outermost result', r == 'complete value' and obj.attrs.get('names') == 'complete value'
+                and len(calls) == 1, 'cached_property.__get__ must return and store the value its own call of the function returned, '
+                'overwriting what a re-entrant access stored meanwhile; returned %r, stored %r, function called %d times'
+                % (r, obj.attrs.get('names'), len(calls)), 'cached_property: obj.__dict__[name] = func(obj) (outermost call wins)')
+            r2 = it.call(it.getattr(desc, '__get__'), [None, None], {})
+            rec('memo', 'cached_property on the class returns the descriptor', r2 is desc, 'cached_property.__get__(None, cls) must return '
+                'the descriptor itself; got %r' % (r2,))
+        except InterpRaise as e:
+            rec('memo', 'cached_property keeps the outermost result', False, 'cached_property raises %s' % e)
+        # context_property
+        cx = it.lookup_global(UTIL, 'context_property')
+        obj2 = st.obj(None, 'object with a context property')
+        n = []
+
+        def resolve(it_, a, k):
+            n.append(1)
+            if len(n) == 1 and fail_first[0]:
+                raise InterpRaise('ImportError', 'first evaluation fails')
+            return 'value %d' % len(n)
+        fail_first = [False]
+        try:
+            inner = it.call(cx, [Native('resolve', resolve)], {})
+            a1 = it.call(inner, [obj2, 'ctx'], {})
+            a2 = it.call(inner, [obj2, 'ctx'], {})
+            rec('memo', 'context_property computes once and returns the stored value', (a1, a2) == ('value 1', 'value 1') and len(n) == 1,
+                'context_property must call the function once per object and return the same value afterwards; got %r then %r after %d '
+                'calls' % (a1, a2, len(n)), 'context_property: one evaluation per object')
+            obj3 = st.obj(None, 'object whose first evaluation fails')
+            del n[:]
+            fail_first[0] = True
+            try:
+                it.call(inner, [obj3, 'ctx'], {})
+                first = 'returned'
+            except InterpRaise as e:
+                first = e.exc_name
+            b2 = it.call(inner, [obj3, 'ctx'], {})
+            rec('memo', 'context_property stores nothing when the evaluation raises', first == 'ImportError' and b2 == 'value 2',
+                'an evaluation that raises must leave no memo behind (the next request evaluates again); first call %s, second call '
+                'returned %r' % (first, b2))
+        except InterpRaise as e:
+            rec('memo', 'context_property computes once and returns the stored value', False, 'context_property raises %s' % e)
+        return out
+    return repo.memo('memo-decorator-model', build)
+
+
+def assigns_model(repo):
+    """SourceScope.assigns interpreted on a module scope (built by supp's constructor) that recorded attribute assignments
+    through add_attr_assign: every assignment must be booked on the object its *own* receiver evaluates to."""
+    def build():
+        from . import resolve_model as RM
+        m = RM.get_model(repo)
+        st = Stubs(repo)
+        it = m.it
+        out = []
+        top = m.scope('SourceScope', Obj(m.cls('BaseScope'), {'names': {}}, 'builtins'))
+        meth = Obj(m.cls('FuncScope'), {'top': top, 'parent': top}, 'method scope')
+        meth2 = Obj(m.cls('FuncScope'), {'top': top, 'parent': top}, 'another method')
+        inst_self = Obj(m.cls('InstanceValue'), {}, 'the instance self')
+        inst_other = Obj(m.cls('InstanceValue'), {}, 'the instance other')
+        recv = {}
+
+        def name_node(ident, line):
+            n = Obj(st.blank, {'id': ident, 'lineno': line, 'col_offset': 8}, 'receiver ' + ident)
+            n.astcls = 'Name'
+            recv[n.oid] = {'self': inst_self, 'other': inst_other}.get(ident)
+            return n
+
+        def attr_node(ident, attr, line):
+            a = Obj(st.blank, {'value': name_node(ident, line), 'attr': attr, 'lineno': line, 'col_offset': 8}, '%s.%s' % (ident, attr))
+            a.astcls = 'Attribute'
+            return a
+        entries = [(meth, attr_node('other', 'owner', 10), 'v1'), (meth, attr_node('self', 'x', 11), 'v2'),
+                   (meth, attr_node('self', 'x', 12), 'v3'), (meth, attr_node('self', 'y', 13), 'v4'),
+                   (meth, attr_node('unknown', 'z', 14), 'v5'), (meth2, attr_node('self', 'w', 20), 'v6'),
+                   (meth2, attr_node('other', 'peer', 21), 'v7')]
+        asked = []
+        ctx = Obj(st.blank, {'evaluate': Native('evaluate', lambda it_, a, k: (asked.append(a[0]), recv.get(a[0].oid))[1])}, 'ctx')
+        try:
+            for sc, an, v in entries:
+                it.call(it.getattr(top, 'add_attr_assign'), [sc, an, Unknown(v)], {})
+            res = it.call(it.getattr(top, 'assigns'), [ctx], {})
+            got = {}
+            for k, table in res.items():
+                for attr, mv in table.items():
+                    vals = mv.attrs.get('values') if isinstance(mv, Obj) else mv
+                    got[(k.label, attr)] = [(x.attrs.get('value').tag if isinstance(x.attrs.get('value'), Unknown) else x.attrs.get('value'),
+                                             x.attrs.get('declared_at')) for x in vals]
+            want = {('the instance other', 'owner'): [('v1', (10, 8))], ('the instance self', 'x'): [('v2', (11, 8)), ('v3', (12, 8))],
+                    ('the instance self', 'y'): [('v4', (13, 8))], ('the instance self', 'w'): [('v6', (20, 8))],
+                    ('the instance other', 'peer'): [('v7', (21, 8))]}
+            out.append(('assigns', 'every attribute assignment is booked on its own receiver', got == want,
+                        'seven recorded assignments (other.owner, self.x twice, self.y, unknown.z in one method; self.w, other.peer in '
+                        'another) must be grouped by the object each receiver evaluates to, in order, with the position of the '
+                        'attribute node; got %s' % (got,), 'assigns: receiver evaluated per assignment; grouped by object'))
+        except InterpRaise as e:
+            out.append(('assigns', 'every attribute assignment is booked on its own receiver', False, 'assigns raises %s' % e, None))
+        return out
+    return repo.memo('assigns-model', build)
